@@ -1,0 +1,16 @@
+//go:build verif
+
+package tree
+
+import (
+	pa "github.com/benoitkugler/webrender/css/parser"
+	pr "github.com/benoitkugler/webrender/css/properties"
+	"github.com/benoitkugler/webrender/utils"
+)
+
+// VerifResolveVar exposes resolveVar (var() substitution at computed-value
+// time) to the verification harness: the resolved tokens (nil when [token]
+// holds no var()) and whether a cyclic reference was met.
+func VerifResolveVar(variables map[string]pr.RawTokens, token pa.Token) (resolved []pa.Token, cyclic bool) {
+	return resolveVar(variables, token, utils.NewSet())
+}
